@@ -107,6 +107,26 @@ def r16_1(rep, M, rid):
     tol = M.params(GM)[4]
     tv = [x.id for x in ast.walk(loop.target) if isinstance(x, ast.Name)]
     num = tv[-1]
+    # truthiness of a variable that holds an atom index: index 0 is falsy
+    idx_vars = {norm(s2.targets[0]) for s2 in ast.walk(loop) if isinstance(s2, ast.Assign) and isinstance(s2.targets[0], ast.Name)
+                and not (isinstance(s2.value, ast.Constant)) and "index" in norm(s2.value)}
+    truthy = []
+    for x in ast.walk(loop):
+        operands = []
+        if isinstance(x, (ast.If, ast.While, ast.IfExp)):
+            operands.append(x.test)
+        if isinstance(x, ast.BoolOp):
+            operands += x.values
+        if isinstance(x, ast.UnaryOp) and isinstance(x.op, ast.Not):
+            operands.append(x.operand)
+        for o in operands:
+            if isinstance(o, ast.Name) and o.id in idx_vars:
+                truthy.append((o, x))
+    if truthy:
+        o, x = truthy[0]
+        rep.violation(rid, f"get_matches: truthiness test of `{o.id}`", f"`{norm(x if not isinstance(x, ast.If) else x.test)[:60]}` tests an atom index for truth: index 0 is "
+                      "falsy, so a position correctly matched to atom 0 is also reported as a vacancy and its cell offset is overwritten", M.where(GM, o))
+        return
     P = Paths({"match", "substitution"})
     assigned_in_body = {t.id for s2 in ast.walk(loop) if isinstance(s2, ast.Assign) for t in s2.targets if isinstance(t, ast.Name)}
     paths = P.run(list(loop.body), {v: "CARRIED" for v in assigned_in_body}, [], [])
